@@ -7,6 +7,7 @@
 package main
 
 import (
+	"bytes"
 	"context"
 	"encoding/hex"
 	"encoding/json"
@@ -94,6 +95,13 @@ func sigFn(tag, b []byte) string {
 	out := append([]byte{}, tag...)
 	out = append(out, byte(65+sum%26), byte(97+len(b)%26), byte(48+w%10), byte(48+(w/10)%10))
 	return string(out)
+}
+
+// decodeDoc reads a stored document with numbers kept as tokens (data may hold numbers no float64 can)
+func decodeDoc(doc []byte, m *map[string]interface{}) error {
+	dec := json.NewDecoder(bytes.NewReader(doc))
+	dec.UseNumber()
+	return dec.Decode(m)
 }
 
 var errSign = errors.New("signer failed")
@@ -217,6 +225,8 @@ func runCase(c Case) (lit string, obs Obs, nontrivial bool) {
 			node.Predicate = func(context.Context, interface{}) (bool, error) { return false, nil }
 		case 3:
 			node.Predicate = func(context.Context, interface{}) (bool, error) { return false, errPred }
+		case 4:
+			node.Predicate = func(context.Context, interface{}) (bool, error) { return true, errPred }
 		}
 	}
 	var out *el.Event
@@ -264,7 +274,7 @@ func runCase(c Case) (lit string, obs Obs, nontrivial bool) {
 		if doc, has := e.Formatted[key]; has {
 			obs.TimeOK = false
 			var m map[string]interface{}
-			if json.Unmarshal(doc, &m) == nil {
+			if decodeDoc(doc, &m) == nil {
 				if ts, isStr := m["time"].(string); isStr {
 					if t2, perr := time.Parse(time.RFC3339Nano, ts); perr == nil && t2.Equal(tm) {
 						obs.TimeOK = true
@@ -287,7 +297,7 @@ func runCase(c Case) (lit string, obs Obs, nontrivial bool) {
 		docs = append(docs, calls...) // nothing stored (signing failed): the signer still saw the document
 		for _, doc := range docs {
 			var m map[string]interface{}
-			if json.Unmarshal(doc, &m) == nil {
+			if decodeDoc(doc, &m) == nil {
 				if s, isStr := m["id"].(string); isStr {
 					fresh = []byte(s)
 					obs.Fresh = s
@@ -405,7 +415,7 @@ func genGrid(em *emitter) {
 			for signer := 0; signer <= 2; signer++ {
 				for _, types := range [][]string{{hx("t")}, {hx("other")}} {
 					for _, pk := range pkinds {
-						for pred := 0; pred < 4; pred++ {
+						for pred := 0; pred < 5; pred++ {
 							if pred >= 2 && (signer == 0 && format == "bogus") {
 								continue
 							}
@@ -455,10 +465,19 @@ func genGrid(em *emitter) {
 			c.Payload = &jgen.Recipe{K: "nil"}
 			em.emit(c)
 			c = base
+			c.PKind = "data"
+			c.Payload = &jgen.Recipe{K: "num", V: "1e400"} // a number no float64 holds
+			em.emit(c)
+			c = base
 			c.PKind = "both"
 			c.PID = hx("id\n\xc3\x28")
 			c.Payload = &jgen.Recipe{K: "nil", T: "ptr"}
 			em.emit(c)
+			for _, n := range []int{1, 9, 29, 61, 125} {
+				c = base
+				c.Tag = hx(strings.Repeat("H", n))
+				em.emit(c)
+			}
 			for _, types := range [][]string{nil, {hx("T")}, {hx("t ")}, {hx("")}, {hx("x"), hx("t")}, {hx("tt"), hx("t"), hx("t")}} {
 				c = base
 				c.Types = types
@@ -482,9 +501,13 @@ func genRandom(em *emitter, r *hc.Rand, n, depth int) {
 		c.Source = []string{"https://src.example", "https://src.example", "urn:x:y", "http://h/p?q=<a>&b=1", "", "<empty>"}[r.Intn(6)]
 		c.Schema = []string{"", "", "https://schema.example/s", "s:<&>", "<empty>"}[r.Intn(5)]
 		c.Format = []string{"", "cloudevents-json", "cloudevents-text", "cloudevents-text", "bogus", "json"}[r.Intn(6)]
-		c.Pred = []int{0, 0, 1, 2, 3}[r.Intn(5)]
+		c.Pred = []int{0, 0, 1, 2, 3, 4}[r.Intn(6)]
 		c.Signer = []int{0, 1, 1, 1, 2, 3}[r.Intn(6)]
 		c.Tag = hex.EncodeToString(g.String(3))
+		if r.Chance(1, 2) { // signer results of many lengths (the result is tag + 4 bytes)
+			n := []int{0, 1, 4, 8, 9, 12, 13, 28, 29, 60, 61, 124, 250}[r.Intn(13)]
+			c.Tag = hex.EncodeToString([]byte(strings.Repeat("h", n)))
+		}
 		c.Type = hex.EncodeToString(g.String(3))
 		switch r.Intn(4) {
 		case 0: // unlisted
